@@ -204,7 +204,10 @@ class Session:
 
         def exit_(*a, **kw):
             if self.text_at_exit is None:
-                self.text_at_exit = s.default_buffer.text
+                try:
+                    self.text_at_exit = s.default_buffer.text
+                except Exception:  # noqa
+                    self.text_at_exit = "<unreadable>"
             return orig_exit(*a, **kw)
         s.app.exit = exit_
         self.flush_len = None
@@ -277,9 +280,21 @@ class Session:
     def valuation(self):
         from prompt_toolkit.application.current import set_app
         with set_app(self.app):
-            return [1 if a() else 0 for a in self._atoms]
+            out = []
+            for a in self._atoms:
+                try:
+                    out.append(1 if a() else 0)
+                except Exception:  # noqa - e.g. a filter reading an unreadable buffer
+                    out.append(0)
+            return out
 
     def model_state(self):
+        try:
+            return self._model_state()
+        except Exception:  # noqa - unreadable state: the oracle reports it, nothing to replay on the model
+            return "skip"
+
+    def _model_state(self):
         """The state in the wire format of Model/C05_Run.v, or 'skip' when the
         live state is outside the model's assumptions."""
         app = self.app
@@ -502,7 +517,7 @@ def outer_watchdog(fn, seconds):
 
 
 def run_case(cfg, keys, yield_every=0, per_key=None, instrument=None):
-    return outer_watchdog(lambda: _run_case(cfg, keys, yield_every, per_key, instrument), 60)
+    return outer_watchdog(lambda: _run_case(cfg, keys, yield_every, per_key, instrument), 40)
 
 
 def _run_case(cfg, keys, yield_every=0, per_key=None, instrument=None):
@@ -516,11 +531,22 @@ def _run_case(cfg, keys, yield_every=0, per_key=None, instrument=None):
         trace = []
         try:
             for i, tok in enumerate(keys):
-                before = s.observe()
+                try:
+                    before = s.observe()
+                except Exception as e:  # noqa
+                    trace.append((tok, "StateUnreadable:%s" % type(e).__name__, trace[-1][3] if trace else {}, trace[-1][3] if trace else {}))
+                    break
                 if before["done"]:
                     break
                 exc = s.key(tok)
-                after = s.observe()
+                try:
+                    after = s.observe()
+                except Exception as e:  # noqa - the editor state cannot even be read any more
+                    after = dict(before)
+                    exc = (exc + "; " if exc else "") + "StateUnreadable:%s" % type(e).__name__
+                    after["handler"] = getattr(s, "last_handler", None)
+                    trace.append((tok, exc, before, after))
+                    break
                 after["handler"] = getattr(s, "last_handler", None)
                 trace.append((tok, exc, before, after))
                 if per_key:
